@@ -36,11 +36,11 @@ def collect():
             continue
         shutil.copytree(d, dst)
         print('collected', sid)
-    # round 2: /tmp/w2_Cxx/out/m1,m2 -> Cxx_m4, Cxx_m5 ; round 3: /tmp/w3_Cxx/out/m1,m2 -> Cxx_m6, Cxx_m7
-    for d in sorted(glob.glob('/tmp/w2_C*/out/m*')) + sorted(glob.glob('/tmp/w3_C*/out/m*')):
+    # round 2: /tmp/w2_Cxx/out/m1,m2 -> Cxx_m4, Cxx_m5 ; round 3: /tmp/w3_Cxx/out/m1,m2 -> Cxx_m6, Cxx_m7 ; round 4: /tmp/w4_Cxx -> Cxx_m8, Cxx_m9
+    for d in sorted(glob.glob('/tmp/w2_C*/out/m*')) + sorted(glob.glob('/tmp/w3_C*/out/m*')) + sorted(glob.glob('/tmp/w4_C*/out/m*')):
         rnd = int(re.search(r'/w(\d)_C', d).group(1))
         prop = re.search(r'w\d_(C\d+)', d).group(1)
-        n = int(os.path.basename(d)[1:]) + (3 if rnd == 2 else 5)
+        n = int(os.path.basename(d)[1:]) + {2: 3, 3: 5, 4: 7}[rnd]
         sid = '%s_m%d' % (prop, n)
         dst = os.path.join(SEEDED, sid)
         if os.path.exists(dst):
